@@ -85,6 +85,8 @@ pub struct GenCfg {
     pub profile: Profile,
     pub kind: Kind,
     pub max_funcs: usize,
+    /// at least this many local functions (0 = modules without code are generated too)
+    pub min_funcs: usize,
     pub max_stmts: usize,
     pub max_depth: u32,
     /// import `host.log : (i32) -> ()` as function 0
@@ -106,6 +108,7 @@ impl GenCfg {
             profile,
             kind,
             max_funcs: 5,
+            min_funcs: 0,
             max_stmts: 4,
             max_depth: 3,
             host_log: kind == Kind::Exec,
@@ -927,7 +930,7 @@ pub fn gen_module(t: &mut Tape, cfg: &GenCfg) -> GModule {
     // ---------- tables ----------
     let n_tables_local = if p.reftypes { t.below(3) } else if m.n_table_imports() == 0 { t.below(2) } else { 0 };
     // ---------- functions: signatures first ----------
-    let n_funcs = t.range(if exec || edit { 1 } else { 0 }, cfg.max_funcs);
+    let n_funcs = t.range(if exec || edit { 1 } else { cfg.min_funcs.min(cfg.max_funcs) }, cfg.max_funcs);
     let mut func_tys: Vec<u32> = vec![];
     for _ in 0..n_funcs {
         func_tys.push(*t.pick(&func_type_idxs));
